@@ -168,7 +168,7 @@ class SteadyDetonationReactionZone(ExactSolver):
         # initialize variables
 
         for var in varnames:
-            xsolution[var] = np.zeros_like(xvec)
+            xsolution[var] = np.zeros_like(xvec, dtype=float)
 
         # find the indices of xvec that lie above the upper end of xvec_abs
         #  (highest value of position is first entry in array)
